@@ -762,6 +762,123 @@ fn scenario(out: &mut Shards, rng: &mut Rng, k: u16, shape: u8, n: usize, merges
     }
 }
 
+/// Given values into digest `id`; logs DUpd.
+fn feed_vals(out: &mut Shards, id: usize, t: &mut Td, vals: &[f64]) -> bool {
+    let r = catch(std::panic::AssertUnwindSafe(|| {
+        for &v in vals {
+            t.d.update(v);
+            t.see(v, 1);
+        }
+    }));
+    match r {
+        Ok(()) => {
+            out.ev(json!({"op":"DUpd","id":id,"n":vals.len()}));
+            true
+        }
+        Err(e) => {
+            out.ev(json!({"op":"Panic","in":"update","key":e.split(": ").next().unwrap_or(""),"msg":e}));
+            false
+        }
+    }
+}
+
+/// A digest decoded from a valid image with heavy end centroids (states the in-process algorithm does
+/// not produce on its own), then taken through further history: values strictly between an extreme and
+/// the nearest centroid mean become first / last centroids of weight 1 that are not the extreme.
+fn decoded_then_updated(out: &mut Shards, rng: &mut Rng, k: u16) {
+    out.next_run("td-decoded-updated");
+    let n = 2 + rng.below(4) as usize;
+    let mut means: Vec<f64> = (0..n).map(|_| (rng.below(2000) as f64) / 8.0 - 100.0).collect();
+    means.sort_by(|a, b| a.partial_cmp(b).unwrap());
+    means.dedup();
+    if means.len() < 2 {
+        means.push(means[0] + 7.5);
+    }
+    let n = means.len();
+    let mut cs: Vec<(f64, u64)> = means.iter().map(|&m| (m, *rng.pick(&[1u64, 1, 2, 3, 5, 40]))).collect();
+    let heavy_first = rng.chance(2, 3);
+    let heavy_last = !heavy_first || rng.chance(1, 2);
+    let (mut min, mut max) = (cs[0].0, cs[n - 1].0);
+    if heavy_first {
+        cs[0].1 = *rng.pick(&[2u64, 3, 4, 9, 60]);
+    } else {
+        cs[0].1 = 1;
+    }
+    if heavy_last {
+        cs[n - 1].1 = *rng.pick(&[2u64, 3, 4, 9, 60]);
+    } else {
+        cs[n - 1].1 = 1;
+    }
+    // the extreme sample sits in the heavy end centroid with w - 1 other samples of [min, max]
+    let span = cs[n - 1].0 - cs[0].0;
+    if heavy_last {
+        let room = (cs[n - 1].1 - 1) as f64 * span;
+        max = cs[n - 1].0 + (room * (1 + rng.below(4)) as f64 / 8.0).min(64.0);
+    }
+    if heavy_first {
+        let room = (cs[0].1 - 1) as f64 * (max - cs[0].0);
+        min = cs[0].0 - (room * (1 + rng.below(4)) as f64 / 8.0).min(64.0);
+    }
+    let total: u64 = cs.iter().map(|c| c.1).sum();
+    let img = image(k, min, max, &cs, rng.chance(1, 2));
+    let d = match catch(std::panic::AssertUnwindSafe(|| TDigestMut::deserialize(&img, false))) {
+        Ok(Ok(d)) => d,
+        Ok(Err(e)) => {
+            out.ev(json!({"op":"Panic","in":"deserialize-valid-image","key":"Err","msg":format!("{e:?}")}));
+            return;
+        }
+        Err(e) => {
+            out.ev(json!({"op":"Panic","in":"deserialize-valid-image","key":e.split(": ").next().unwrap_or(""),"msg":e}));
+            return;
+        }
+    };
+    // cmin / cmax = 2: nothing is claimed about how often the extremes occur in the encoded stream
+    let mut t = Td { d, smin: min, smax: max, cmin: 2, cmax: 2 };
+    out.ev(json!({"op":"DFrom","id":0,"k":k,"tw":total.min(1 << 30)}));
+    if !chk(out, 0, &mut t, rng) {
+        return;
+    }
+    let rounds = 1 + rng.below(3);
+    for _ in 0..rounds {
+        let mut vals = vec![];
+        let (lo_m, hi_m) = (cs[0].0, cs[n - 1].0);
+        if min < lo_m {
+            for _ in 0..1 + rng.below(2) {
+                vals.push(min + (lo_m - min) * (1 + rng.below(7)) as f64 / 8.0);
+            }
+        }
+        if hi_m < max {
+            for _ in 0..1 + rng.below(2) {
+                vals.push(hi_m + (max - hi_m) * (1 + rng.below(7)) as f64 / 8.0);
+            }
+        }
+        if rng.chance(1, 3) {
+            vals.push(lo_m + span * rng.f64());
+        }
+        if !feed_vals(out, 0, &mut t, &vals) || !chk(out, 0, &mut t, rng) {
+            return;
+        }
+    }
+    // the state reached is written and read back like any other, and keeps answering
+    let bytes = t.d.serialize();
+    match catch(std::panic::AssertUnwindSafe(|| TDigestMut::deserialize(&bytes, false))) {
+        Ok(Ok(mut back)) => {
+            let same = back.serialize() == bytes;
+            out.ev(json!({"op":"DCopy","id":0,"to":1,"same":same,"how":"serialize-deserialize"}));
+            let mut t2 = Td { d: back, smin: t.smin, smax: t.smax, cmin: t.cmin, cmax: t.cmax };
+            if !chk(out, 1, &mut t2, rng) {
+                return;
+            }
+            let more = 30 + rng.below(400) as usize;
+            if feed(out, 1, &mut t2, rng, 2, more) {
+                chk(out, 1, &mut t2, rng);
+            }
+        }
+        Ok(Err(e)) => out.ev(json!({"op":"Panic","in":"deserialize-own-image","key":"Err","msg":format!("{e:?}")})),
+        Err(e) => out.ev(json!({"op":"Panic","in":"deserialize-own-image","key":e.split(": ").next().unwrap_or(""),"msg":e})),
+    }
+}
+
 pub fn record(args: &Args) {
     let seed = args.u64("seed", 1);
     let mut rng = Rng::new(seed ^ 0x7D16);
@@ -785,6 +902,9 @@ pub fn record(args: &Args) {
         for &(k, single) in &[(10u16, false), (30, false), (30, true), (200, true), (500, true)] {
             let shape = *rng.pick(&[0u8, 2, 3, 5]);
             fold_scenario(&mut out, &mut rng, k, shape, if k > 100 { 3 } else { 16 }, single);
+        }
+        for i in 0..(if thorough { 120 } else { 40 }) {
+            decoded_then_updated(&mut out, &mut rng, [10u16, 25, 100, 200, 500][i % 5]);
         }
         fold_mixed(&mut out, &mut rng, 20, &[400, 100], 2);
         fold_mixed(&mut out, &mut rng, 10, &[500], 0);
